@@ -50,5 +50,22 @@ CLAIMS = {
         "note": TRUST + "no arithmetic claim about the accept-either coincidence (1 in 255), stated in DESIGN.md",
         "technique": "must-pass-through + value-flow range/provenance analysis (static analysis)",
     },
+    "C02": {
+        "text": "The byte layout of _Packet.encode is derived from the source as a sequence of segments with affine lengths and compared "
+                "with the stated V2 format (marker, type, LE16 total length = actual length, magic, 8-byte timestamp, LE64 id at 20, "
+                "40-byte header, AES-ECB(PKCS7(command)), MD5(everything before ‖ key)); the decoder's ranges, byte order and inverse "
+                "transform agree with it; key/mode/block pairing by constant folding; every emitted byte is interval-bounded. Holds "
+                "for all frames, ids and timestamps at once because lengths and values are symbolic.",
+        "note": TRUST + "AES-128-ECB / PKCS7 / MD5 implementations",
+        "technique": "byte-sequence layout + affine length + interval abstract domains over value-flow terms (static analysis)",
+    },
+    "C05": {
+        "text": "Layout of the V3 encrypted request derived symbolically; the pad is evaluated in the congruence domain for all 16 "
+                "residues of (len+2) mod 16; declared size = actual − 8; tag over header ‖ plaintext on both sides; decoder ranges, pad "
+                "nibble, counter width agree; the payload strip is decided for pad = 0 and pad > 0 (x[a:-0] is empty); every decoded "
+                "return is dominated by the full-width SHA-256 equality and rejections are ProtocolErrors.",
+        "note": TRUST + "SHA-256 / AES-CBC implementations; Python slicing semantics",
+        "technique": "byte-sequence layout + congruence + interval domains, path-condition dominance (static analysis)",
+    },
 }
 NOT_APPLICABLE = {}
